@@ -209,6 +209,20 @@ def get_filename_shape(F):
                 "the path is built from %s%s" % (fmt_term(x), ", which the function rewrites first (%s)" % ", ".join(sorted({nd.get("fname") or nd.get("op") for nd in stores})) if stores else ""))]
 
 
+def subterms_of(t):
+    if isinstance(t, tuple) and t and isinstance(t[0], str):
+        yield t
+        for x in t[1:]:
+            if isinstance(x, tuple):
+                for y in subterms_of(x):
+                    yield y
+                if x and not isinstance(x[0], str):
+                    for z in x:
+                        if isinstance(z, tuple):
+                            for y in subterms_of(z):
+                                yield y
+
+
 def duplicate_scan(F):
     fn = F.fn(AF + "VerifySortedContainerHasNoDuplicateNames", nparams=1)
     nm = P(fn, 0)
@@ -284,12 +298,57 @@ def extension_matches(F):
     rets = returns(fn)
     inst = XF + "ExtensionMatches#both-upper"
     req = "both the path's extension and the requested extension are upper-cased before comparison"
-    if len(rets) != 1:
-        raise AnalysisBroken("ExtensionMatches: expected one return")
+    finals = [r for r in rets if fn.term(r["value"])[0] == "opcall" and fn.term(r["value"])[1] == "=="]
+    if len(finals) != 1:
+        raise AnalysisBroken("ExtensionMatches: expected one return of an equality")
+    early = [r for r in rets if r["id"] != finals[0]["id"]]
+    rets = finals
     t = fn.term(rets[0]["value"])
     if not (t[0] == "opcall" and t[1] == "==" and len(t[2]) == 2):
         raise AnalysisBroken("ExtensionMatches: return is not an equality")
     sides = list(t[2])
+    # an early `return false` on a length difference is sound only once both strings have their final (normalised) form
+    from ..rules_sib import enclosing_if_cond
+    pre = []
+    for r in early:
+        v = fn.n(fn.strip(r["value"]))
+        cid, in_then = enclosing_if_cond(fn, r["id"])
+        ct = fn.term(cid) if cid is not None else None
+        # the strings whose lengths are compared: the compared strings themselves, or what one of them is initialised from
+        pre_form = {}
+        for nd0 in fn.nodes:
+            if nd0["k"] == "DeclStmt":
+                for d0 in nd0.get("decls", []):
+                    if "init" in d0 and ("var", d0.get("n"), d0.get("d")) in sides:
+                        for sub in subterms_of(fn.term(d0["init"])):
+                            if sub[0] == "var":
+                                pre_form[sub] = ("var", d0["n"], d0["d"])
+        def to_side(x):
+            return x if x in sides else pre_form.get(x)
+        shape = v.get("v") == 0 and ct is not None and in_then and ct[0] == "op" and ct[1] == "!=" and ct[2][0] == "size" and ct[3][0] == "size"
+        mapped = {to_side(ct[2][1]), to_side(ct[3][1])} if shape else set()
+        if not shape or mapped != set(sides):
+            raise AnalysisBroken("ExtensionMatches: an early return that is not `if (a.size() != b.size()) return false` on the compared strings")
+        later_mut = []
+        for nd in fn.nodes:
+            if nd["id"] <= r["id"] and {ct[2][1], ct[3][1]} == set(sides):
+                continue
+            if nd["k"] in CALLS and nd.get("args"):
+                # in-place changes after the early test: ConvertToUpperInPlace(x), x.insert(...), x = ..., x += ...
+                if (nd.get("fq") or "").endswith("ConvertToUpperInPlace") and fn.term(nd["args"][0]) in sides:
+                    continue        # case folding keeps the length
+                if nd["k"] == "CXXMemberCallExpr" and "obj" in nd and fn.term(nd["obj"]) in sides and nd.get("fname") in ("insert", "append", "push_back", "erase", "assign", "replace", "resize"):
+                    later_mut.append(nd)
+                if nd["k"] == "CXXOperatorCallExpr" and nd.get("op") in ("=", "+=") and fn.term(nd["args"][0]) in sides:
+                    later_mut.append(nd)
+        if later_mut:
+            pre.append(bad("R-SIB", XF + "ExtensionMatches#early-length-test", fn.loc(r["id"]), fn.qn,
+                           "a length comparison may reject only the strings that are finally compared",
+                           "`%s` is tested at %s, but %s is still changed afterwards at %s (e.g. the leading dot is added): extensions that match after normalisation are rejected" % (
+                               fmt_term(ct), fn.loc(cid), fmt_term(fn.term(later_mut[0]["args"][0]) if later_mut[0]["k"] == "CXXOperatorCallExpr" else fn.term(later_mut[0]["obj"])), fn.loc(later_mut[0]["id"]))))
+        else:
+            pre.append(ok("R-SIB", XF + "ExtensionMatches#early-length-test", fn.loc(r["id"]), fn.qn,
+                          "a length comparison may reject only the strings that are finally compared", "tested after the last change of length"))
     upper = set()
     for nd in fn.nodes:
         if nd["k"] in CALLS and (nd.get("fq") or "").endswith("ConvertToUpperInPlace"):
@@ -301,8 +360,8 @@ def extension_matches(F):
                     if it[0] == "call" and it[1].endswith("StringUtility::ConvertToUpper"):
                         upper.add(("var", d["n"], d["d"]))
     if all(s in upper for s in sides):
-        return [ok("R-SIB", inst, fn.loc(rets[0]["id"]), fn.qn, req, "%s == %s, both upper-cased" % (fmt_term(sides[0]), fmt_term(sides[1])))]
-    return [bad("R-SIB", inst, fn.loc(rets[0]["id"]), fn.qn, req, "not upper-cased: %s" % ", ".join(fmt_term(s) for s in sides if s not in upper))]
+        return pre + [ok("R-SIB", inst, fn.loc(rets[0]["id"]), fn.qn, req, "%s == %s, both upper-cased" % (fmt_term(sides[0]), fmt_term(sides[1])))]
+    return pre + [bad("R-SIB", inst, fn.loc(rets[0]["id"]), fn.qn, req, "not upper-cased: %s" % ", ".join(fmt_term(s) for s in sides if s not in upper))]
 
 
 def debruijn(F):
@@ -388,8 +447,8 @@ def check(F, run, tier):
         "sides; ConvertToUpperInPlace maps every character through toupper; the log2 table and multiplier read from the AST "
         "form a de Bruijn indexing in 32-bit arithmetic.")
     lt = F.fn(SU + "IsEqualCaseInsensitive", nparams=2)
-    run.add(symmetric_keys(lt, SU + "IsEqualCaseInsensitive", expect_key="tolower"))
-    run.add(lexicographic_less(lt, SU + "IsEqualCaseInsensitive"))
+    from ..rules_sib import case_insensitive_less
+    run.add(case_insensitive_less(F, lt, SU + "IsEqualCaseInsensitive"))
     run.add(is_equal_shape(F))
     run.add(compare_path_filenames(F))
     run.add(get_filename_shape(F))
